@@ -67,6 +67,14 @@ func GenC09(seed uint64, thorough bool) *C09Case {
 	case x == 5:
 		c.CtxMs = -1
 	}
+	// a fifth of the cases without a request context: the payloads go through the real ingestor (pooled compressor
+	// and buffers), two or three clients at once
+	if rv := verifsim.NewSplitMix(seed ^ 0x1962).Split("c09-ingestor"); c.CtxMs == 0 && rv.Bool(0.25) {
+		c.ViaIngestor = true
+		for len(c.Clients) < 2+rv.Intn(2) {
+			c.Clients = append(c.Clients, []int{rv.Range(1, 200), rv.Range(1, 200)})
+		}
+	}
 	return c
 }
 
